@@ -662,6 +662,9 @@ def login (mountType : TokType) (sysDefault sysMax : Int) (a : LoginAuth) : Logi
     | none =>
       if ttl = 0 && tokenPolicies != [nRoot] then .err "internal" else
       let batch := tt = .batch
+      -- `Core.RegisterAuth` (repair of F105): the mount's token_type tuning may have forced the type to batch after the
+      -- auth method's own check — a batch token cannot carry a use limit
+      if batch && a.numUses != 0 then .err "role-batch-uses" else
       .ok { tokenPolicies, policies := all, identity := sanitize a.identity false, batch, ttl,
             period := if batch then 0 else a.period, emax := if batch then 0 else a.emax,
             numUses := if batch then 0 else a.numUses,
